@@ -85,6 +85,8 @@ func ExprByRe(re string) (Expr, bool) {
 var Lits = []string{
 	"a", "b", "c", "ab", "users", "v1", "x.y", "a+b", "f(g", "c)", "a*b", "$", "-", "_",
 	"%41", "~t", "...", "e=1", "(z)", "k.", "+", "x",
+	// the rest of the characters a literal may contain
+	"a;b", "a;v=2", "me@x", "it's", "q&a", "!",
 }
 
 // Names is the pool of bind names ("route", "withOptional" and "capture" are
